@@ -42,6 +42,10 @@ pub struct ThreadPool {
     command_txs: Vec<mpsc::Sender<Command>>,
     join_handles: Vec<JoinHandle<()>>,
     thread_count: NonZero<usize>,
+
+    // Set once a worker thread has failed to deliver a result, which means it panicked and its
+    // thread is gone (or going). The pool can then never again run a task on every thread.
+    worker_lost: bool,
 }
 
 // ThreadPool is logically unwind-safe: the JoinHandles are never exposed and are only used in
@@ -102,6 +106,7 @@ impl ThreadPool {
                 .expect("guarded by fact that ProcessorSet is never empty"),
             command_txs: txs,
             join_handles,
+            worker_lost: false,
         }
     }
 
@@ -140,6 +145,14 @@ impl ThreadPool {
         // This requires a `&mut` exclusive reference because two concurrent usages of the same
         // benchmarking thread pool are essentially guaranteed to deadlock. Internally, we have
         // no need for a `&mut` reference, this is just for caller safety.
+
+        // This check must come before any worker has been handed the callback: if we found out
+        // about the dead worker only while dispatching, we would unwind while the workers dispatched
+        // to so far are executing the callback whose lifetime we extend below.
+        assert!(
+            !self.worker_lost,
+            "thread pool cannot be used after one of its worker threads has panicked"
+        );
 
         let mut results = Vec::with_capacity(self.thread_count.get());
 
@@ -193,6 +206,10 @@ impl ThreadPool {
             .into_iter()
             .map(|rx| rx.recv())
             .collect::<Vec<_>>();
+
+        if outcomes.iter().any(Result::is_err) {
+            self.worker_lost = true;
+        }
 
         for outcome in outcomes {
             results.push(outcome.expect("worker thread failed to send result - did it panic?"));
